@@ -399,6 +399,67 @@ impl World {
         self.globals.push(Some(GlobalsObj { g, names, from_dropped }));
     }
 
+    /// A new module that takes every public symbol of a live frozen module through `import_public_symbols` (the
+    /// embedder-side twin of load()), re-exports some of them directly and inside a container, and is frozen.
+    fn module_import_public(&mut self, ch: &mut Choices) {
+        let live = self.live_mods();
+        if live.is_empty() {
+            return;
+        }
+        let i = live[ch.idx(live.len())];
+        let k = self.mods.len();
+        let (syms, expects, dep) = {
+            let m = self.mods[i].as_ref().unwrap();
+            (m.symbols.clone(), m.expect.clone(), m.depends_on_dropped)
+        };
+        let picked: Vec<String> = (0..(1 + ch.idx(3))).map(|_| syms[ch.idx(syms.len())].clone()).collect();
+        let mut src = String::new();
+        for (j, sname) in picked.iter().enumerate() {
+            src.push_str(&format!("re{k}_{j} = {sname}\n"));
+        }
+        src.push_str(&format!("x{k} = [\"holder-{k}\", {}]\n", picked.join(", ")));
+        let Ok(ast) = sl::parse(&format!("m{k}.star"), &src, &sl::dialect_all()) else { return };
+        let fm = {
+            let src_fm = &self.mods[i].as_ref().unwrap().fm;
+            Module::with_temp_heap(|module| {
+                module.import_public_symbols(src_fm);
+                {
+                    let mut eval = Evaluator::new(&module);
+                    if let Err(e) = eval.eval_module(ast, sl::globals()) {
+                        return Err(format!("eval after import_public_symbols: {}\n{src}", e.without_diagnostic()));
+                    }
+                }
+                module.freeze_named(FrozenHeapName::user(&format!("m{k}.star"))).map_err(|e| format!("freeze: {e:?}"))
+            })
+        };
+        let fm = match fm {
+            Ok(f) => f,
+            Err(e) => {
+                self.fails.push(format!("generator bug: {e}"));
+                return;
+            }
+        };
+        let mut exp = BTreeMap::new();
+        let mut symbols = Vec::new();
+        for (j, sname) in picked.iter().enumerate() {
+            if let Some(e) = expects.get(sname) {
+                exp.insert(format!("re{k}_{j}"), e.clone());
+                symbols.push(format!("re{k}_{j}"));
+            }
+        }
+        if let Ok(h) = fm.get_owned(&format!("x{k}")) {
+            exp.insert(format!("x{k}"), observe_handle(&h));
+            symbols.push(format!("x{k}"));
+        }
+        if symbols.is_empty() {
+            return;
+        }
+        let chain = 1 + self.mods[i].as_ref().unwrap().chain;
+        self.max_chain = self.max_chain.max(chain);
+        self.log.push(format!("m{k} = module with import_public_symbols(m{i}), re-exports {picked:?}, frozen"));
+        self.mods.push(Some(ModObj { fm, expect: exp, symbols, depends_on_dropped: dep, chain }));
+    }
+
     fn module_from_globals(&mut self) {
         let k = self.mods.len();
         let mut b = GlobalsBuilder::standard();
@@ -509,7 +570,7 @@ impl Prop for C13 {
         (20, 300)
     }
     fn rule(&self) -> String {
-        "Case = history of up to 30 steps over <= 8 modules: build+freeze a module that loads symbols from live frozen modules (direct load, re-export alias, embedded in a new dict, captured by a def, default argument, captured by a lambda over a local, inside record/struct values), optionally evaluated with a temporary Globals that is dropped right after (its heap holds a string the module references); take owned handles (plain or through OwnedFrozen::map); build a module from a handle via add_to_heap and freeze it; FrozenModule::from_globals on a temporary Globals; drop any module or handle in any order, a third of the time on another thread, each drop followed by allocation churn. Invariant after EVERY step: every exported value of every live module and every live handle encodes exactly as at creation (functions: the encoding of calling them), through add_to_heap and through by_ref. Freed arenas are overwritten with 0x5A (hook H2). evaluations = value observations. Non-trivial = a value was read after a heap it (transitively) lives in lost its original owner; distinct = distinct history.".into()
+        "Case = history of up to 30 steps over <= 8 modules: build+freeze a module that loads symbols from live frozen modules (direct load, re-export alias, embedded in a new dict, captured by a def, default argument, captured by a lambda over a local, inside record/struct values), optionally evaluated with a temporary Globals that is dropped right after (its heap holds a string the module references); take owned handles (plain or through OwnedFrozen::map); build a module through Module::import_public_symbols of a live frozen module that re-exports some symbols directly and in a container; forwarding heaps (FrozenHeap receiving handle values through add_to_frozen_heap, with or without own allocations) and Globals built from handle values; build a module from a handle via add_to_heap and freeze it; FrozenModule::from_globals on a temporary Globals; drop any module or handle in any order, a third of the time on another thread, each drop followed by allocation churn. Invariant after EVERY step: every exported value of every live module and every live handle encodes exactly as at creation (functions: the encoding of calling them), through add_to_heap and through by_ref. Freed arenas are overwritten with 0x5A (hook H2). evaluations = value observations. Non-trivial = a value was read after a heap it (transitively) lives in lost its original owner; distinct = distinct history.".into()
     }
     fn assumptions(&self) -> Vec<String> {
         vec!["only operations whose documentation makes the library responsible for heap references are generated (load, get_owned, OwnedFrozen::map/add_to_heap/by_ref, from_globals); raw FrozenHeap::alloc of foreign values without add_reference is a documented caller obligation and is never generated".into()]
@@ -526,7 +587,13 @@ impl Prop for C13 {
             if ch.exhausted() || !w.fails.is_empty() {
                 break;
             }
-            match ch.weighted(&[5, 4, 2, 1, 6, 2, 2]) {
+            match ch.weighted(&[5, 4, 2, 1, 6, 2, 2, 2]) {
+                7 => {
+                    if w.mods.len() < 8 {
+                        w.module_import_public(ch);
+                        labels_extra.push("import_public_symbols");
+                    }
+                }
                 5 => {
                     if w.fwd.len() < 6 {
                         w.forwarding_heap(ch);
